@@ -3,7 +3,9 @@
 Theorems: Props/C20.v (Analysis/Truthful.v through the verified abstract interpreter) on the programs T2 regenerates:
 clause 1 (c20_check, all 17 optimizers): at every record every agent's fitness is the objective at its stored position
 (for the swarm family at its stored local best); clause 2 (c20_greedy_check; ABC, CS, FPA, PSO, AIWPSO, RPSO per agent,
-HS/IHS per rank): fitness never increases between consecutive records.  WCA fails clause 1 on the unchanged tree
+HS/IHS per rank): fitness never increases between consecutive records (observer hooks).  Clause 1 is also proved for every
+pre-evaluation hook that only moves agents (c20h_check: the Hook statement forgets position/fitness consistency of every slot, the
+sweep that follows re-establishes it -- a hook called between the sweep and history.dump breaks the obligation).  WCA fails clause 1 on the unchanged tree
 (finding g: _raining_process moves agents after the sweep): refuted in Coq (wca_c20_refuted) and recorded."""
 from props import _ir
 
@@ -12,7 +14,9 @@ GREEDY = ['ABC', 'CS', 'FPA', 'PSO', 'AIWPSO', 'RPSO', 'HS', 'IHS']
 
 
 def run(ctx):
-    ctx.assume('the objective is a deterministic function; the hook is an observer; arithmetic results NaN-free and shape-preserving (okc_std)',
+    ctx.assume('the objective is a deterministic function; arithmetic results NaN-free and shape-preserving (okc_std); the hook is an observer '
+               '(c20_check, clause 2) or any hook that keeps fitnesses / best / trial / shadows / local positions and leaves positions well formed '
+               '(c20h_check, clause 1: hook_moves_positions_only)',
                'swarm family: every initial fitness (the FLOAT_MAX sentinel) is strictly above every objective value',
                'a freshly built space is feasible (C06 / C01_fresh_space_is_admissible)')
     meta, errors = _ir.regenerate(ctx)
@@ -21,6 +25,9 @@ def run(ctx):
         _ir.nonvacuity(ctx, meta)
         _ir.check_programs(ctx, meta, IMPORTS, 'c20_check', '(fun p => t_alarms (is_pso p) GNone p)',
                            'a record may hold a fitness that is not the objective at the recorded position', 'c20_truthful')
+        _ir.check_programs(ctx, meta, IMPORTS, 'c20h_check', '(fun p => th_alarms true (is_pso p) GNone p)',
+                           'under a pre-evaluation hook that moves agents a record may hold a fitness that is not the objective at the recorded position',
+                           'c20_truthful_any_position_moving_hook')
         _ir.check_programs(ctx, meta, IMPORTS, 'c20_greedy_check', '(fun p => t_alarms (is_pso p) (if sorts p then GRank else GSlot) p)',
                            'an individual\'s recorded fitness may increase between two records', 'c20_greedy_slot / c20_greedy_rank', only=GREEDY)
         # histories of tasks (C20_task_histories): the regenerated programs outside the swarm family qualify (WCA is the recorded finding g)
@@ -37,6 +44,8 @@ def run(ctx):
                        'stored position (local best for the swarm family) of every record, consecutive records compared per agent / per rank')
     _ir.monitor(ctx)
     _ir.translation_failures(ctx, errors)
+    ctx.sample({'theorem': 'c20_truthful_any_position_moving_hook: hook_moves_positions_only lbs h -> c20h_check p = true -> at every EvDump y of every run '
+                           'under hook h: Forall (fun a => afit a = f (apos a)) (pop y) (swarm family: against loc y)'})
     ctx.sample({'theorem': 'c20_truthful: c20_check p = true -> at every EvDump y: Forall (fun a => afit a = f (apos a)) (pop y) (swarm family: against loc y); '
                            'c20_greedy_slot / c20_greedy_rank: consecutive dumps y1, y2: fitnesses of y2 pointwise (rank-wise for HS/IHS) <= those of y1'})
 
